@@ -190,7 +190,7 @@ func Cases(r *hx.Rand, tier string) []Case {
 					args := append([]*Ty{}, base...)
 					args[i] = j.t
 					c := Case{p, args, "subst/" + j.name}
-					if bi == 0 && (j.name == "int" || j.name == "nil" || j.name == "variadic-pred" || j.name == "chan" || j.name == "func0" || j.name == "func1-void" || j.name == "func0-1res") {
+					if bi == 0 && (j.name == "int" || j.name == "nil" || j.name == "variadic-pred" || j.name == "chan" || j.name == "func0" || j.name == "func1-void" || j.name == "func0-1res" || j.name == "variadic2") {
 						must = append(must, c)
 					} else {
 						pool = append(pool, c)
